@@ -241,6 +241,10 @@ func decodeRecord(reader *bytes.Reader, baseOffset int64, baseTimestamp int64, t
 	if err != nil {
 		return Record{}, err
 	}
+	// Every header takes at least two bytes (key length and value length).
+	if headerCount < 0 || headerCount > int64(buf.Len()) {
+		return Record{}, fmt.Errorf("invalid header count %d", headerCount)
+	}
 
 	headers := make([]Header, 0, headerCount)
 	for i := int64(0); i < headerCount; i++ {
